@@ -11,6 +11,7 @@ package main
 
 import (
 	"context"
+	"encoding/json"
 	"errors"
 	"fmt"
 	"runtime"
@@ -18,6 +19,8 @@ import (
 	"sync"
 	"sync/atomic"
 	"time"
+
+	"github.com/pojntfx/panrpc/go/pkg/rpc"
 )
 
 func closureRendezvous(rep *Report, prop, api string, k int) {
@@ -553,5 +556,47 @@ func linksAfterAHandlerPanic(rep *Report, prop string, dur time.Duration) {
 	rep.sample(d)
 	if m := bad.Load(); m != nil {
 		rep.addViolation("property", prop+":after-panic:crossed", m.(string), d)
+	}
+}
+
+// sharedLinkHooks (C20): many links are established at the same moment, all handed ONE LinkHooks value with one
+// callback unset (declared once next to the accept loop). The library may only read it.
+func sharedLinkHooks(rep *Report, prop string) {
+	rep.Evaluations++
+	rep.Distinct++
+	mar := func(v any) (json.RawMessage, error) { b, err := json.Marshal(v); return b, err }
+	unm := func(data json.RawMessage, v any) error { return json.Unmarshal([]byte(data), v) }
+	for round := 0; round < 10; round++ {
+		reg := rpc.NewRegistry[rpRemote, json.RawMessage](rpLocal{}, nil)
+		var n int64
+		hooks := &rpc.LinkHooks{OnClientConnect: func(id string) { atomic.AddInt64(&n, 1) }}
+		ctx, cancel := context.WithCancel(context.Background())
+		var wg sync.WaitGroup
+		start := make(chan struct{})
+		var qs []*Queue
+		for i := 0; i < 8; i++ {
+			q := NewQueue()
+			qs = append(qs, q)
+			wg.Add(1)
+			go func() {
+				defer wg.Done()
+				<-start
+				reg.LinkMessage(ctx,
+					func(b json.RawMessage) error { return nil }, func(b json.RawMessage) error { return nil },
+					func() (json.RawMessage, error) { b, e := q.Get(); return b, e }, func() (json.RawMessage, error) { b, e := q.Get(); return b, e },
+					mar, unm, hooks)
+			}()
+		}
+		close(start)
+		waitFor(func() bool { return atomic.LoadInt64(&n) == 8 })
+		cancel()
+		for _, q := range qs {
+			q.Close(errors.New("closed"))
+		}
+		wg.Wait()
+		if hooks.OnClientDisconnect != nil {
+			rep.addViolation("property", prop+":shared-hooks:written", "the library wrote to the LinkHooks value the application shares between concurrently established links (its unset OnClientDisconnect is set now)", map[string]any{"suite": "shared-link-hooks"})
+			return
+		}
 	}
 }
